@@ -14,6 +14,7 @@ CONSTANTS U,        \* universe: finite set of integer points in strictly convex
           MinPts, MaxPts,
           Off,      \* integer translation <<ox,oy,oz>>
           EmitOn,
+          WithCurv,    \* TRUE: records carry curvature terms, Steiner formulas and exact ball data (C11, C13)
           WithPoints,  \* TRUE: records carry the membership classification of the lattice points around the solid
           InitAll   \* TRUE: every non-degenerate 4-subset is an initial state; FALSE: one fixed seed (simulation)
 
@@ -92,6 +93,64 @@ Record ==
          edges |-> {<<IndexOf(vs, CHOOSE p \in e : \A q \in e \ {p} : LexLt(p, q)) - 1,
                       IndexOf(vs, CHOOSE p \in e : \A q \in e \ {p} : LexLt(q, p)) - 1>> : e \in UNION {FacetEdges(F, W) : F \in Fs}} ]
 
+(* ---- curvature and balls (C11, C13) ---------------------------------------------------------- *)
+\* per edge: squared length, and the cosine of the exterior dihedral angle as  dot / sqrt(nn)  with the primitive
+\* outward normals n1, n2 of the two facets meeting in the edge:  dot = n1 . n2,  nn = |n1|^2 |n2|^2
+EdgeData(Fs) == { LET Fe == {F \in Fs : e \in FacetEdges(F, W)}
+                     F1 == CHOOSE F \in Fe : TRUE
+                     F2 == CHOOSE F \in Fe : F # F1
+                     n1 == PrimNormal(F1, W)  n2 == PrimNormal(F2, W)
+                     a == CHOOSE p \in e : TRUE
+                     b == CHOOSE p \in e : p # a
+                 IN [e |-> e, len2 |-> Norm3sq(Sub3(a, b)), dot |-> Dot3(n1, n2), nn |-> Norm3sq(n1) * Norm3sq(n2)]   \* e keeps equal-valued edges apart
+                 : e \in UNION {FacetEdges(F, W) : F \in Fs} }
+\* the integrated mean curvature with coxeter's normalisation, as an exact term:
+\*   M = sum_edges L_e * (pi - phi_e) / (8 pi),   pi - phi_e = acos(n1.n2 / (|n1||n2|)) the exterior angle
+MeanCurvatureTerm(Fs) ==
+    LET E == SetToSeq(EdgeData(Fs)) IN
+    [div |-> << [sum |-> [i \in 1..Len(E) |-> [mul |-> << [sqrt |-> [q |-> <<E[i].len2, 1>>]],
+                                                          [acos |-> [div |-> << [q |-> <<E[i].dot, 1>>], [sqrt |-> [q |-> <<E[i].nn, 1>>]] >>]] >>]]],
+                [pi |-> 1, x |-> [q |-> <<8, 1>>]] >>]
+\* Steiner formulas for the body rounded by r (refs V, S, M, r are bound by the harness to this record's exact volume,
+\* surface area, mean curvature and the chosen rounding radius)
+Rf(nm) == [ref |-> nm]
+Qn(a, b) == [q |-> <<a, b>>]
+SteinerVolume == [sum |-> << Rf("V"), [mul |-> <<Rf("S"), Rf("r")>>],
+                             [pi |-> 1, x |-> [mul |-> <<Qn(4, 1), Rf("M"), [pow |-> 2, x |-> Rf("r")]>>]],
+                             [pi |-> 1, x |-> [mul |-> <<Qn(4, 3), [pow |-> 3, x |-> Rf("r")]>>]] >>]
+SteinerArea == [sum |-> << Rf("S"), [pi |-> 1, x |-> [mul |-> <<Qn(8, 1), Rf("M"), Rf("r")>>]],
+                           [pi |-> 1, x |-> [mul |-> <<Qn(4, 1), [pow |-> 2, x |-> Rf("r")]>>]] >>]
+SteinerCurvature == [sum |-> <<Rf("M"), Rf("r")>>]
+TauTerm == [div |-> << [pi |-> 1, x |-> [mul |-> <<Qn(4, 1), [pow |-> 2, x |-> Rf("M")]>>]], Rf("S") >>]
+AsphericityTerm == [div |-> << [mul |-> <<Rf("M"), Rf("S")>>], [mul |-> <<Qn(3, 1), Rf("V")>>] >>]
+IqTerm == [div |-> << [pi |-> 1, x |-> [mul |-> <<Qn(36, 1), [pow |-> 2, x |-> Rf("V")]>>]], [pow |-> 3, x |-> Rf("S")] >>]
+
+\* five points are cospherical iff this determinant vanishes (rows p - p0 with the lifted coordinate)
+Lift(p, o) == LET d == Sub3(p, o) IN <<d[1], d[2], d[3], Norm3sq(d)>>
+Det4(a, b, c, d) == a[1] * Det3(<<b[2], b[3], b[4]>>, <<c[2], c[3], c[4]>>, <<d[2], d[3], d[4]>>)
+                  - a[2] * Det3(<<b[1], b[3], b[4]>>, <<c[1], c[3], c[4]>>, <<d[1], d[3], d[4]>>)
+                  + a[3] * Det3(<<b[1], b[2], b[4]>>, <<c[1], c[2], c[4]>>, <<d[1], d[2], d[4]>>)
+                  - a[4] * Det3(<<b[1], b[2], b[3]>>, <<c[1], c[2], c[3]>>, <<d[1], d[2], d[3]>>)
+\* a circumsphere exists iff all vertices are cospherical: fix four non-coplanar ones, test every other
+CircumsphereExists ==
+    LET o == CHOOSE p \in W : TRUE
+        a == CHOOSE p \in W : p # o
+        b == CHOOSE p \in W : ~Collinear3(o, a, p)
+        c == CHOOSE p \in W : Orient3(o, a, b, p) # 0
+    IN \A p \in W : Det4(Lift(a, o), Lift(b, o), Lift(c, o), Lift(p, o)) = 0
+\* centred balls about the exact centroid c = cen24 / (4 vol6), scaled by D = 4 vol6 to stay in integers:
+\*   minimal centred bounding:  r^2 = max_v |D v - cen24|^2 / D^2
+\*   maximal centred bounded:   r = min_F (D off_F - n_F . cen24) / (D |n_F|)
+BallData(Fs, T) ==
+    LET D == 4 * Vol6(T)
+        c == <<Cen24(T, 1), Cen24(T, 2), Cen24(T, 3)>>
+        far == CHOOSE v \in W : \A u \in W : Norm3sq(Sub3(Scale3(D, v), c)) >= Norm3sq(Sub3(Scale3(D, u), c))
+        gap(F) == D * FacetOffset(F, W) - Dot3(PrimNormal(F, W), c)
+    IN [den |-> D, far2 |-> Norm3sq(Sub3(Scale3(D, far), c)),
+        \* r_bounded = min over facets of gap / (D sqrt(n2)), emitted as a term (the products would overflow TLC's integers)
+        bounded |-> [min |-> {[div |-> <<[q |-> <<gap(F), D>>], [sqrt |-> [q |-> <<Norm3sq(PrimNormal(F, W)), 1>>]]>>] : F \in Fs}],
+        circum |-> CircumsphereExists]
+
 (* ---- membership (C05): a lattice point q against the facet half-spaces n.x <= off ------------- *)
 \* 1 = strictly inside, 0 = strictly outside, 2 = on the boundary (never asserted)
 DMember(q, Fs) == IF \E F \in Fs : Dot3(PrimNormal(F, W), q) > FacetOffset(F, W) THEN 0
@@ -106,7 +165,12 @@ PointRecord == LET Fs == Facets(W)  QQ == QPts
                    mem(q) == IF \E hp \in hs : Dot3(hp[1], q) > hp[2] THEN 0
                              ELSE IF \E hp \in hs : Dot3(hp[1], q) = hp[2] THEN 2 ELSE 1
                IN [q |-> QQ, mem |-> [i \in 1..Len(QQ) |-> mem(QQ[i])]]
-FullRecord == IF WithPoints THEN [r |-> Record, p |-> PointRecord] ELSE [r |-> Record]
+CurvRecord == LET Fs == Facets(W) IN
+    [mterm |-> MeanCurvatureTerm(Fs), steiner_volume |-> SteinerVolume, steiner_area |-> SteinerArea,
+     steiner_curvature |-> SteinerCurvature, tau |-> TauTerm, asphericity |-> AsphericityTerm, iq |-> IqTerm,
+     balls |-> BallData(Fs, Tris)]
+FullRecord == IF WithPoints THEN [r |-> Record, p |-> PointRecord]
+              ELSE IF WithCurv THEN [r |-> Record, c |-> CurvRecord] ELSE [r |-> Record]
 
 Emit == (EmitOn /\ Cardinality(V) >= MinPts) => PrintT(ToJson(FullRecord))
 ViewV == V
